@@ -136,6 +136,14 @@ impl<PT, K: IndexKey, P, I> ManyMatcher<PT, K, P, I> {
     }
 }
 
+#[cfg(feature = "verif")]
+impl<PT, K: IndexKey, P, I> ManyMatcher<PT, K, P, I> {
+    /// The underlying constraint automaton (verification hook).
+    pub fn verif_automaton(&self) -> &ConstraintAutomaton<K, P, I> {
+        &self.automaton
+    }
+}
+
 impl<PT, K: IndexKey, P: Debug, I> ManyMatcher<PT, K, P, I> {
     /// A dotstring representation of the trie.
     pub fn dot_string(&self) -> String {
